@@ -19,10 +19,10 @@ TECHNIQUE = ("Coq proofs over a function-by-function model of gmtls/conn.go's re
              "specifications of SM4, HMAC-SM3 and GCM for which the premises are proved; the extracted model is run against the "
              "real code on single-record mutants, stateful pairs and handshake-phase reads (white box), on attacker scripts, "
              "close sequences and captured connections (black box, incl. key-block derivation from the logged master secret)")
-LEVEL_TEXT = ("Theorems in Coq (Props/C07.v, 30): extractPadding's constant-time arithmetic equals the RFC padding rule for every payload; "
+LEVEL_TEXT = ("Theorems in Coq (Props/C07.v, 33): extractPadding's constant-time arithmetic equals the RFC padding rule for every payload; "
               "incSeq is +1 on a 64-bit big-endian counter and panics exactly at 2^64-1; the sequence number is reset only by a requested "
               "ChangeCipherSpec arriving with no handshake bytes pending; nonce/AAD/MAC-input/record layouts; fresh explicit IVs from the "
-              "randomness stream; decrypt(encrypt(r)) = r; for every byte stream an attacker can present (every script over deliver / flip / "
+              "randomness stream; the GCM explicit nonce is the sequence number, so over any history of Writes the nonces never repeat; decrypt(encrypt(r)) = r; for every byte stream an attacker can present (every script over deliver / flip / "
               "truncate / extend / swap / duplicate / drop / inject / cross-direction and cross-connection replay / header rewrite) the "
               "receiver delivers a prefix of what the sender wrote, its first error is permanent, its sequence number equals the number of "
               "accepted records - relative to the stated idealisation only; Write always succeeds (given randomness) and the writes arrive "
@@ -244,6 +244,20 @@ def predicate(f, io):
             want = bytes(((i * 131 + (i >> 8) + sl) & 0xff) for i in range(total))
             if _unhex(io[1 + k]) != want:
                 return False, "capture: the peer did not read what was written on an unmodified connection"
+        # on the wire: GCM explicit nonce of record j after ChangeCipherSpec = j (the sequence number), so the
+        # nonces of one direction never repeat; CBC explicit IVs pairwise distinct and not the previous block
+        for recs in (_lst(f[8]), _lst(f[9])):
+            if f[2] == "gcm":
+                for j, r in enumerate(recs):
+                    if int(r[10:26], 16) != j:
+                        return False, "capture: GCM explicit nonce of record %d is not the sequence number" % j
+            else:
+                ivs = [r[10:42] for r in recs]
+                if len(set(ivs)) != len(ivs):
+                    return False, "capture: CBC explicit IV repeated"
+                for j in range(1, len(recs)):
+                    if ivs[j] == recs[j - 1][-32:]:
+                        return False, "capture: CBC explicit IV equals the previous ciphertext block"
         return True, ""
     if io[0] == "HANG":
         return False, "implementation HANG"
